@@ -113,6 +113,14 @@ Definition sblocks_complete (rows : list srow) (bs : list lblock) (sbs : list sb
                                         (s_codes r)
                     end) bs.
 
+(* every native call of the method fails: blocks keyed by the first call the method makes *)
+Definition ablock_ok (b : lblock) : bool :=
+  forallb2 (fun c g => (known_class (l_plat b) (l_meth b) (l_site b) c
+                        || gout_ok (all_demanded (l_plat b) (l_meth b) (l_site b) c) g)
+                       && gout_ok (Some (all_outcome (l_plat b) (l_meth b) (l_site b) c)) g) (conds (l_plat b)) (l_outs b).
+Definition ablocks_complete (bs abs : list lblock) : bool :=
+  forallb (fun b => existsb (fun a => plat_eqb (l_plat a) (l_plat b) && String.eqb (l_meth a) (l_meth b)) abs) bs.
+
 Definition block_model_ok (b : lblock) : bool :=
   forallb2 (fun c g => gout_ok (Some (method_outcome (l_plat b) (l_meth b) (l_site b) c)) g) (conds (l_plat b)) (l_outs b).
 
@@ -194,7 +202,8 @@ Definition row_ok (u : urow) : bool :=
   | None => true
   | Some d => fields_ok u d && type_ok u d
   end
-  && deps_ok u.
+  && deps_ok u
+  && match u_falsy_bad u with [] => true | _ => false end.     (* 0 and -1 in a copied slot arrive as 0 and -1 *)
 
 Fixpoint find_urow (p : plat) (meth variant : string) (l : list urow) : option urow :=
   match l with
